@@ -28,7 +28,8 @@ LEVEL_TEXT = ("All clauses are unbounded Coq theorems (Props/C16.v, statements i
               "poss_desc_exact / poss_anc_exact (closure = s plus the nodes joined to s by a semi-directed path, by closure_spec and "
               "path shortening), semi_edge_marks (on graphs without a lone circle mark a step is 'adjacent and no arrowhead at the "
               "near end'). The link from the model to /repo is differential correspondence (tie K): sorted multiset of yielded paths, "
-              "is_semi_directed_path booleans, both ancestry sets, exhaustively on MARKS(n) n<=3 and on sampled n=4..7 graphs.")
+              "is_semi_directed_path booleans, both ancestry sets, exhaustively on MARKS(n) n<=3 and on sampled n=4..7 graphs."
+              " Tie (T) for the local predicates: translator/predicates.py re-translates on every run the per-pair test of is_semi_directed_path, _possibly_directed (both flags), the BFS step of possible_descendants / possible_ancestors and the two arrowhead filters of _all_semi_directed_paths_graph into Gen/Gen_Preds.v; repo_pred_semi proves by complete case analysis that each equals the model's step predicate semi_ok on every pair state of the quantifier (a state a PAG can hold, no lone circle: 14 of 64), repo_pred_poss_step_filters that the model's ancestry closures step along them, repo_pred_cells_C16 that the translator's table equals the printed Gallina; all 448 cells are compared with the real functions on 2-/3-node PAGs each run (replayable).")
 LEVEL_NOTE = ("The model is the behaviour the property demands; /repo before fixes/C16-semi-directed-cutoff-filter.patch yields "
               "non-semi-directed paths in the len(visited)==cutoff branch (0->1<-2, default cutoff) and is reported as VIOLATION. "
               "Trusted: Coq kernel incl. vm_compute, extraction + driver.ml, the Python harness; networkx/MixedEdgeGraph views "
